@@ -122,6 +122,8 @@ class Engine:
         self.spec_funcs = {}
         self.inline_depth = 0
         self.contract_uses = []
+        self.loop_ordinals = {}
+        self.spec_defs = {}
 
     # ------------------------------------------------------------------ utilities
     def oblige(self, kind, st, goal, note="", extra=None, oid=None):
@@ -808,6 +810,23 @@ class Engine:
             raise Unsupported("subscript of constant container")
         if isinstance(c, Ref) and isinstance(st.heap[c.oid], HDict):
             h = st.heap[c.oid]
+            if isinstance(i, Sym) and h.keys and all(h.pres[k] is True for k in h.keys) and len({pytype_name(h.vals[k]) for k in h.keys}) == 1 and pytype_name(h.vals[h.keys[0]]) in ("int", "str", "bool"):
+                res = []
+                anykey = self._or([self.eq(i, k, st) for k in h.keys])
+                for flag, s2 in self.fork(anykey, st):
+                    if not flag:
+                        res.append((Raise(Exc("KeyError", "symbolic key")), s2))
+                        continue
+                    hh = s2.heap[c.oid]
+                    val = hh.vals[hh.keys[-1]]
+                    for k in reversed(hh.keys[:-1]):
+                        e = self.eq(i, k, s2)
+                        if e is True:
+                            val = hh.vals[k]
+                        elif e is not False:
+                            val = self.ite(e, hh.vals[k], val)
+                    res.append((val, s2))
+                return res
             if isinstance(i, Sym):
                 res = []
                 for k in h.keys:
@@ -1135,15 +1154,18 @@ class Engine:
             key = ast.unparse(stmt).split("\n")[0].strip()
         except Exception:
             return
-        for name, expr in self.ghost_hooks.get(key, ()):
-            saved = self.mode
-            self.mode = "spec"
-            try:
-                (v, _), = self.ev(ast.parse(expr, mode="eval").body, st)
-            finally:
-                self.mode = saved
-            st.ghost[name] = v
-            self.hooks_fired.add(key)
+        for hk, caps in self.ghost_hooks.items():
+            if not key.startswith(hk):
+                continue
+            for name, expr in caps:
+                saved = self.mode
+                self.mode = "spec"
+                try:
+                    (v, _), = self.ev(ast.parse(expr, mode="eval").body, st)
+                finally:
+                    self.mode = saved
+                st.ghost[name] = v
+            self.hooks_fired.add(hk)
 
     hooks_fired = set()
 
@@ -1427,9 +1449,7 @@ class Engine:
     def ex_For(self, stmt, st):
         if stmt.orelse:
             raise Unsupported("for/else")
-        fr = self.frames[-1]
-        fr.loop_ordinal += 1
-        ordinal = fr.loop_ordinal
+        ordinal = self.loop_ordinals.get(id(stmt), 0)
 
         def after_iter(it, s):
             spec = None
@@ -1504,7 +1524,7 @@ class Engine:
         def havoc(s):
             sc = s.scopes[self.frames[-1].sid]
             for name in assigned:
-                if name in sc and name not in target_names:
+                if name in sc and name not in target_names and sc[name] is not UNDEF:
                     sc[name] = self.havoc_value(sc[name], name, s)
                 elif name not in sc or name in target_names:
                     sc[name] = UNDEF
@@ -1587,13 +1607,19 @@ class Engine:
         pseudo.glob.update(self.spec_globals())
         if env:
             st.scopes[sid].update(env)
+        for dname, dtext in self.spec_defs.items():
+            dnode = ast.parse(dtext, mode="eval").body
+            st.scopes[sid][dname] = Fn(dnode, [sid] + pseudo.scopes, pseudo.glob, dname)
         for gname, gval in st.ghost.items():
             st.scopes[sid].setdefault(gname, gval)
         self.frames.append(Frame(sid, pseudo, "<spec>"))
         try:
-            outs = self.ev(tree, st)
+            try:
+                outs = self.ev(tree, st)
+            except NeedFork:
+                raise Unsupported("spec expression needs a fork: %s" % text)
             if len(outs) != 1 or isinstance(outs[0][0], Raise):
-                raise Unsupported("spec expression forked or raised: %s -> %r" % (text, outs[0][0] if outs else None))
+                raise Unsupported("spec expression forked or raised: %s -> %r" % (text, outs[0][0].exc if outs else None))
             v = outs[0][0]
         finally:
             self.frames.pop()
@@ -1601,6 +1627,22 @@ class Engine:
             self.mode = saved_mode
         t = self.truth(v, st)
         return t
+
+    def spec_value(self, text, st, env=None):
+        """value of a contract expression (not its truth)"""
+        holder = {}
+        orig = self.truth
+
+        def capture(v, s):
+            holder["v"] = v
+            return True
+
+        self.truth = capture
+        try:
+            self.spec_eval(text, st, env=env)
+        finally:
+            self.truth = orig
+        return holder["v"]
 
     def spec_globals(self):
         from . import specfuncs
